@@ -218,6 +218,10 @@ def log_safe(node, extra=()):
         return
     if isinstance(node, ast.Call) and isinstance(node.func, ast.Name) and node.func.id in extra and not node.keywords and not node.args:
         return
+    if isinstance(node, ast.Call) and isinstance(node.func, ast.Attribute) and ("." + node.func.attr) in extra \
+            and not node.keywords and not node.args:
+        log_safe(node.func.value, extra)      # a declared zero-argument reader method, e.g. codec.ref()
+        return
     if isinstance(node, ast.Call) and isinstance(node.func, ast.Name) and node.func.id in _LOG_CALLS and not node.keywords:
         for a in node.args:
             log_safe(a, extra)
@@ -1100,4 +1104,85 @@ def gen_stages():
     body += vocabulary_doc(CHECK_RULES) + "\n     x = s with s an element |-> sa_enum s\n   Vocabulary of _parse_stages:\n"
     body += vocabulary_doc(STAGES_RULES) + " *)\n\n"
     body += STAGES_PRELUDE + "\n" + d_chk + "\n\n" + d_out + "\n"
+    return body
+
+
+# ============================================================================= T6  dds/codec.py : CodecRegistry
+
+CODEC_PRELUDE = """(* a codec object: its identity (reference, registration index: Codec.cid) and the types it declares.
+   self._handled_types and self._protocols (dict, insertion ordered) are the association lists h and p of Codec.v. *)
+Record cobj := CObj { co_id : cid; co_types : list bytes }.
+Definition co_ref (c : cobj) : bytes := fst (co_id c).
+Definition dict_contains {A : Type} (k : bytes) (d : list (bytes * A)) : bool := is_some (rget k d).
+(* truth value of an Optional[str]: neither None nor the empty string *)
+Definition opt_nonempty (o : option bytes) : bool := match o with Some (_ :: _) => true | _ => false end.
+(* the str inside an Optional[str] that an `if` has found to be true *)
+Definition opt_get (o : option bytes) : bytes := match o with Some x => x | None => [] end.
+(* `a or b` on Optional[codec object]: codec objects are always true *)
+Definition get_or {A : Type} (a b : option A) : option A := match a with Some x => Some x | None => b end.
+"""
+
+CODEC_REG_RULES = [
+    Rule("self.codecs.insert(0, __C)", kind="noop", doc="self.codecs is read by no method"),
+    Rule("self.file_codecs.insert(0, __C)", kind="noop", doc="self.file_codecs is read by no method after __init__"),
+    Rule("for t in __C.handled_types():\n    self._handled_types[t] = __C",
+         "fold_left (fun h0 t => rset t (co_id {C}) h0) (co_types {C}) h", "unit", {"C": "codec"}, kind="update", state="h"),
+    Rule("for t in __C.handled_types():\n    if t not in self._handled_types:\n        self._handled_types[t] = __C",
+         "fold_left (fun h0 t => rset_if_absent t (co_id {C}) h0) (co_types {C}) h", "unit", {"C": "codec"}, kind="update", state="h"),
+    Rule("self._protocols[__C.ref()] = __C", "rset (co_ref {C}) (co_id {C}) p", "unit", {"C": "codec"}, kind="update", state="p"),
+    Rule("__C.ref() in self._protocols", "dict_contains (co_ref {C}) p", "bool", {"C": "codec"}),
+    Rule("_logger.warning(__M)", kind="noop", doc="logging"),
+    LOGGING,
+]
+CODEC_GET_RULES = [
+    Rule("__R not in self._protocols", "negb (dict_contains {R} p)", "bool", {"R": "ref"}),
+    Rule("self._protocols[__R]", "rget {R} p", opt("cid"), {"R": "ref"}, doc="None stands for KeyError"),
+    Rule("self._handled_types.get(__A) or self._handled_types.get(SupportedTypeUtils.from_type(object))",
+         "get_or (rget {A} h) (rget object_type h)", opt("cid"), {"A": "ty"},
+         doc="SupportedTypeUtils.from_type(object) is the str object (body of from_type checked)"),
+    LOGGING,
+]
+CODEC_TYPES = {"codec": "cobj", "cid": "cid", "ty": "bytes", "ref": "bytes"}
+
+
+@register("GenCodec")
+def gen_codec():
+    tree = parse("dds/codec.py")
+    cls = find_def(tree, "CodecRegistry", (ast.ClassDef,))
+    check_methods(cls, ["__init__", "add_codec", "add_file_codec", "get_codec"])
+    check_body(method(cls, "__init__"),
+               ["self.codecs = list(codecs)", "self.file_codecs = list(file_codecs)",
+                "self._handled_types: Dict[SupportedType, Union[CodecProtocol, FileCodecProtocol]] = {}",
+                "self._protocols: Dict[ProtocolRef, Union[CodecProtocol, FileCodecProtocol]] = {}",
+                "for c in list(codecs):\n    self.add_codec(c)", "for fc in list(self.file_codecs):\n    self.add_file_codec(fc)"],
+               "CodecRegistry.__init__")
+    su = find_def(parse("dds/structures_utils.py"), "SupportedTypeUtils", (ast.ClassDef,))
+    check_body(method(su, "from_type"),
+               ["if t is None:\n    return SupportedTypeUtils.from_type(type(None))", "module = t.__module__",
+                "if module is None or module == str.__class__.__module__:\n    return SupportedType(t.__name__)",
+                "return SupportedType(module + '.' + t.__name__)"], "SupportedTypeUtils.from_type")
+    # the two lists of codec objects are written by __init__ and the two registration methods only and read nowhere else
+    for m in cls.body:
+        if isinstance(m, ast.FunctionDef) and m.name == "get_codec":
+            for n in ast.walk(m):
+                if isinstance(n, ast.Attribute) and n.attr in ("codecs", "file_codecs"):
+                    raise Unrecognised("CodecRegistry.get_codec reads the lists of codec objects")
+    pair = "list (bytes * cid) * list (bytes * cid)"
+    t_add = Target("gen_add_codec", "(h p : list (bytes * cid))", pair, ["codec"], "unit", "(h, p)", CODEC_REG_RULES,
+                   coq_types=CODEC_TYPES, none_values={"unit": "tt"})
+    t_addf = Target("gen_add_file_codec", "(h p : list (bytes * cid))", pair, ["codec"], "unit", "(h, p)", CODEC_REG_RULES,
+                    coq_types=CODEC_TYPES, none_values={"unit": "tt"}, readers=(".ref",))
+    t_get = Target("gen_get_codec", "(h p : list (bytes * cid))", "option cid", [opt("ty"), opt("ref")], opt("cid"), "{v}",
+                   CODEC_GET_RULES, raise_="None", coq_types=CODEC_TYPES, truthy={opt("ref"): "opt_nonempty {x}"},
+                   coercions={(opt("ref"), "ref"): "opt_get {x}"}, annotations={"SupportedType": "ty"})
+    d_add = translate(t_add, method(cls, "add_codec"), ["self"])
+    d_addf = translate(t_addf, method(cls, "add_file_codec"), ["self"])
+    d_get = translate(t_get, method(cls, "get_codec"), ["self"])
+    body = GEN_HEADER + "From DDS Require Import Base.Bytes Base.PyRt L5_Stores.Codec.\n\n"
+    body += "(* dds/codec.py : CodecRegistry.add_codec / add_file_codec / get_codec, over the types of L5_Stores/Codec.v\n"
+    body += "   (state: h = self._handled_types, p = self._protocols; get_codec: DDSException / KeyError |-> None).\n"
+    body += "   Vocabulary of the registration methods:\n" + vocabulary_doc(CODEC_REG_RULES) + "\n"
+    body += "   Vocabulary of get_codec (truth value of ref |-> opt_nonempty ref ; ref as a str |-> opt_get ref):\n"
+    body += vocabulary_doc(CODEC_GET_RULES) + " *)\n\n"
+    body += CODEC_PRELUDE + "\n" + d_add + "\n\n" + d_addf + "\n\n" + d_get + "\n"
     return body
